@@ -369,7 +369,40 @@ def sc_model(inp, rec):
             rec.check(False, case, "model dimension evaluates", "raised " + last_line(e), inp)
 
 
-SCENARIOS = {"cond": sc_cond, "depfun": sc_depfun, "model": sc_model}
+def sc_intform(inp, rec):
+    """whole-number fixed values given as Python ints and whole-number conditioning values given in an integer-typed
+    array: same results as the float spelling of the same numbers"""
+    from virocon.distributions import ConditionalDistribution
+    spec = inp["spec"]
+    fam = FAM[spec["family"]]
+    base = f"cond-int/{inp['label']}"
+    rec.key(("cond-int", inp["label"]), nontrivial=True)
+    g_int = np.array(inp["given"], dtype=np.int64)
+    g_flt = g_int.astype(float)
+    x = np.asarray(inp["x"], dtype=float)
+    p = np.asarray(inp["p"], dtype=float)
+    try:
+        fx_f = {f"f_{k}": float(v) for k, v in spec["fixed"].items()}
+        fx_i = {f"f_{k}": int(v) for k, v in spec["fixed"].items()}
+        cf = ConditionalDistribution(fam.cls(**fx_f), build_deps(spec["dep"]))
+        ci = ConditionalDistribution(fam.cls(**fx_i), build_deps(spec["dep"]))
+    except Exception as e:
+        rec.check(False, base + "/build", "a conditional distribution can be built with whole-number fixed values given as ints", "raised " + last_line(e), inp)
+        return
+    for m, arg in (("pdf", x), ("cdf", x), ("icdf", p)):
+        for form, c, g in (("int-fixed", ci, g_flt), ("int-given", cf, g_int), ("int-both", ci, g_int)):
+            case = f"{base}/{m}.{form}"
+            clause = "fixed values and conditioning values that are whole numbers give the same result whether they are spelled as integers or as floats"
+            try:
+                want = np.asarray(getattr(cf, m)(arg, given=g_flt), dtype=float)
+                got = np.asarray(getattr(c, m)(arg, given=g), dtype=float)
+                rec.check(got.shape == want.shape and np.allclose(got, want, rtol=1e-12, atol=0, equal_nan=False), case, clause,
+                          lambda: f"{m}: {got.ravel()[:4].tolist()} (integers) vs {want.ravel()[:4].tolist()} (floats); fixed {spec['fixed']}, given {g_int.tolist()}", inp)
+            except Exception as e:
+                rec.check(False, case, clause, "raised " + last_line(e), inp)
+
+
+SCENARIOS = {"cond": sc_cond, "depfun": sc_depfun, "model": sc_model, "intform": sc_intform}
 
 P_COND = [1e-6, 0.003, 0.1, 0.37, 0.5, 0.81, 0.99, 1 - 1e-5]
 
@@ -410,6 +443,22 @@ def run(tier, seed):
                     spec = make_cond_spec(name, dependent, positive, variant + v, chained, unit)
                     lab = f"{name}/dep={tag}/{'pos' if positive else 'signed'}{'/chained' if chained else ''}{'/unit' if unit else ''}"
                     sc_cond({"kind": "cond", "label": lab, "spec": spec, "given": given, "p": P_COND}, rec)
+
+    rec.group("whole numbers spelled as integers", "every family x every partition with at least one fixed and one dependent parameter", "distinct = (family, partition)")
+    for name in ALL:
+        fam = FAM[name]
+        if name == "LogNormalNormFit":
+            continue
+        for dependent in _partitions(fam.pnames):
+            if not dependent or len(dependent) == len(fam.pnames):
+                continue
+            spec = make_cond_spec(name, dependent, True, 0, False, False)
+            spec["fixed"] = {k: (2.0 if "loc" not in fam.roles.get(k, "") else 1.0) for k in spec["fixed"]}
+            vals = plain_params(spec, np.array([1.0, 2.0, 3.0, 5.0]))
+            if not _admissible_vals(fam, vals):
+                continue
+            sc_intform({"kind": "intform", "label": f"{name}/dep={'+'.join(dependent)}", "spec": spec, "given": [1, 2, 3, 5], "x": [0.7, 1.9, 2.4, 4.2],
+                        "p": [0.1, 0.4, 0.7, 0.95]}, rec)
 
     rec.group("DependenceFunction.__call__", "every callable of the library, seeded coefficients; defaults, explicit, keyword, wrong count, chains of depth 1 and 2",
               "distinct = (callable, coefficients)")
